@@ -287,6 +287,15 @@ def run_writeback_rule(run, rule_id="F-WRITEBACK"):
         run.ob(True, f"{cname}.visit_objects", file=m.rel, line=line, detail=f"{fld}#{k}", expected="value flows back into the field", found=how, sample=(cname == "CaseWhen"))
     for (cname, fld), why in WRITEBACK_EXCEPTIONS.items():
         run.note(f"reviewed exception {cname}.{fld}: {why}")
+    # nodes that are rebuilt around the rewritten object keep their other attributes (read/write direction of inline operands)
+    ic = m.functions.get("InlineCode.visit_objects")
+    if ic is not None:
+        for c in ast.walk(ic.node):
+            if isinstance(c, ast.Call) and (dotted(c.func) or "").endswith(".Object") and c.args and isinstance(c.args[0], ast.Call) and dotted(c.args[0].func) == "operation":
+                v = dotted(c.args[0].args[0]) or ""
+                base = v.rsplit(".", 1)[0]
+                ok = len(c.args) == 2 and dotted(c.args[1]) == f"{base}.read"
+                run.ob(ok, "InlineCode.visit_objects", file=m.rel, line=c.lineno, detail="rebuilt-node-keeps-direction", expected=f"Object(operation({v}, access), {base}.read)", found=src(c)[:80])
     run.end()
 
 
